@@ -35,12 +35,13 @@ class Case:
     """A shape case for verifying a function: build(E, st) -> env of params."""
 
     def __init__(self, name, build, requires=None, ensures=None, raises=None,
-                 assume_false_ok=False):
+                 assume_false_ok=False, fresh_result=None):
         self.name = name
         self.build = build
         self.requires = requires or []
         self.ensures = ensures
         self.raises = raises
+        self.fresh_result = fresh_result
 
 
 class Contract:
@@ -70,7 +71,7 @@ class Contract:
         self.fresh_result = fresh_result
         self.opaque = list(opaque or [])
         self.merge = merge
-        self.cuts = cuts or {}
+        self.cuts = list(cuts or [])   # [(source-prefix, [assertion texts])]
         self.note = note
 
 
@@ -112,6 +113,7 @@ class Engine(ExprMixin, CallMixin, StmtMixin):
         self.extra_builtins = {}
         self.opaque = {}
         self.aliases = {}
+        self.sym_modattrs = {}
         self._parse_cache = {}
         self.vcs = []
         self.fresh_n = 0
@@ -133,7 +135,7 @@ class Engine(ExprMixin, CallMixin, StmtMixin):
     def reset_stats(self):
         self.stats = {"feasibility_queries": 0, "merges": 0,
                       "inlined": set(), "contracts_used": set(),
-                      "inlined_uncontracted": set(),
+                      "inlined_uncontracted": set(), "lemmas_used": set(),
                       "vacuous_loop_bodies": []}
 
     # ------------------------------------------------------------ spec
@@ -238,7 +240,9 @@ class Engine(ExprMixin, CallMixin, StmtMixin):
         outs += [(env, s, "raise", x) for (s, x) in self.pending]
         self.pending = []
         nret = 0
+        exit_pcs = []
         for (en, s, sig, v) in outs:
+            exit_pcs.append(s.pc)
             if sig == "raise":
                 allowed = [cond for (exc, cond) in raises if v.isa(exc)]
                 line = getattr(v.node, "lineno", "?")
@@ -285,11 +289,19 @@ class Engine(ExprMixin, CallMixin, StmtMixin):
                     if k not in c.mod_slots and was.slots.get(k, self) is not val:
                         self.oblige("%s.frame[slot %s unchanged]%s" % (
                             self.cur_name, k, tag), s, False, kind="frame")
-            if c.fresh_result:
+            if (c.fresh_result if case.fresh_result is None else case.fresh_result):
                 ok = isinstance(v, Ref) and s.obj(v).fresh
                 self.oblige("%s.frame[result-fresh]%s" % (self.cur_name, tag), s,
                             ok, kind="frame")
         self.old_stack = []
+        if nret == 0 and not any(sig == "raise" for (_, _, sig, _) in outs):
+            raise ContractBindingError(
+                "no path of %s reaches an exit (vacuous verification)" % self.cur_name)
+        if pre_sat and not any(self.feasible(pc) for pc in exit_pcs):
+            raise ContractBindingError(
+                "every exit path of %s is infeasible although the precondition is "
+                "satisfiable: a callee contract or invariant is contradictory"
+                % self.cur_name)
         self.attach_opaque_facts()
         self.opaque = {}
         return nret
@@ -355,6 +367,10 @@ class Engine(ExprMixin, CallMixin, StmtMixin):
         if is_z3(v):
             if z3.is_const(v) and v.decl().kind() == z3.Z3_OP_UNINTERPRETED:
                 return {"sym": v.decl().name(), "sort": str(v.sort())}
+            if z3.is_app(v) and v.decl().kind() == z3.Z3_OP_TO_REAL and \
+                    z3.is_const(v.arg(0)) and \
+                    v.arg(0).decl().kind() == z3.Z3_OP_UNINTERPRETED:
+                return {"sym": v.arg(0).decl().name(), "sort": "Int", "as": "float"}
             sv = simp(v)
             if not is_z3(sv):
                 return {"lit": sv}
